@@ -70,4 +70,33 @@ PROPS = {
                     'save/restore/mux protocol around branches in TypedExpr::compile / TypedStmt::compile',
                     'EvalPanic::parse and build (panic record wiring to outputs): bounded differential search only'],
     ),
+    'C16': dict(
+        units=[],
+        deps=[],
+        kani=[
+            dict(name='c16_register_eval_safe_2', fn='register_circuit::Circuit::{validate,eval}', max_items=2, label='bounded',
+                 bound='<= 2 instructions, <= 2 parties x <= 2 bits, <= 2 outputs, max_reg_count 1..5; every register / party / input index a full-range u32'),
+            dict(name='c16_register_reads_defined_2', fn='register_circuit::Circuit::validate', max_items=2, label='bounded',
+                 bound='<= 2 instructions, <= 2 parties x <= 2 bits, <= 2 outputs, max_reg_count 1..5; every register / party / input index a full-range u32'),
+        ],
+        witness=['c16', '--depth', '1', '--random', '300000'],
+        witness_thorough=['c16', '--depth', '2', '--random', '3000000'],
+        level='other',
+        technique='Kani harnesses on the real validate/eval (validate()==Ok as precondition of eval; executable valid_spec predicate as '
+                  'postcondition of validate), bounded; plus exhaustive small-scope enumeration of SSA and register circuits on the real code',
+        claim='BOUNDED (not a proof for all circuits). Register circuits: Kani/CBMC proves for every circuit with <= 2 instructions, <= 2 parties x '
+              '<= 2 bits, <= 2 outputs and full-range u32 register/party/input indices that validate()==Ok implies (a) eval on inputs of the '
+              'declared shape does not panic and returns one bit per output, (b) the executable well-definedness predicate valid_spec_reg '
+              '(every read register exists and was written, every input instruction names an existing bit, outputs written). SSA circuits: CBMC '
+              'runs out of memory on the impl-Iterator chains of Circuit::validate (measured), so the stand-in is an exhaustive concrete '
+              'enumeration (all SSA and register circuits with <= 1 (quick) / <= 2 (thorough) gates over 7 party shapes incl. empty parties, '
+              'indices incl. out-of-range) plus random deeper circuits: every accepted circuit is evaluated on every input and compared with a '
+              'reference interpreter that refuses undefined reads.',
+        note='Trusted: Kani/CBMC (Rust->GOTO translation, no termination checking), the reference interpreters and valid_spec_reg in '
+             'kani/src/decode.rs. validate() panicking by itself (max_reg_count == 0 with instructions) is outside the statement and excluded by '
+             'an explicit assume in the harness. "Validation accepts every compiler / conversion output" is checked under C10 (conversion) only.',
+        title='a validated circuit can be evaluated safely (bounded: Kani for register circuits, exhaustive small-scope enumeration for both kinds)',
+        unverified=['unbounded circuit sizes', 'SSA Circuit::validate / eval under Kani (out of memory): enumeration only',
+                    'Evaluator::run pre-checks of party count and bit counts'],
+    ),
 }
